@@ -96,6 +96,34 @@ fn chunks<E: Elem, N: ArrayLength>(mutable: bool, l: usize) -> Result<CaseInfo, 
     Ok(CaseInfo::new(l > 0, format!("{}:{}", if l / n > 0 { "chunks" } else { "no-chunks" }, if l % n > 0 { "rem" } else { "no-rem" })))
 }
 
+/// slices longer than u32::MAX cost nothing for zero-sized elements: lengths only (no element is touched)
+fn chunks_huge_zst<N: ArrayLength>(mutable: bool, l: usize) -> Result<CaseInfo, String> {
+    let n = N::USIZE;
+    let mut backing: [(); 0] = [];
+    let (c, r) = if mutable {
+        let s: &mut [()] = unsafe { core::slice::from_raw_parts_mut(backing.as_mut_ptr(), l) };
+        let (c, r) = GA::<(), N>::chunks_from_slice_mut(s);
+        let cl = c.len();
+        let fl = GA::<(), N>::slice_from_chunks_mut(c).len();
+        if fl != cl * n {
+            return Err(format!("slice_from_chunks_mut of {cl} chunks has {fl} elements"));
+        }
+        (cl, r.len())
+    } else {
+        let s: &[()] = unsafe { core::slice::from_raw_parts(backing.as_ptr(), l) };
+        let (c, r) = GA::<(), N>::chunks_from_slice(s);
+        let fl = GA::<(), N>::slice_from_chunks(c).len();
+        if fl != c.len() * n {
+            return Err(format!("slice_from_chunks of {} chunks has {fl} elements", c.len()));
+        }
+        (c.len(), r.len())
+    };
+    if (c, r) != (l / n, l % n) {
+        return Err(format!("L = {l}, N = {n}: got {c} chunks and a remainder of {r}, expected {} and {}", l / n, l % n));
+    }
+    Ok(CaseInfo::new(true, "huge-zst"))
+}
+
 fn span_of<E>(s: &[E]) -> (usize, usize) {
     (s.as_ptr() as usize, s.len())
 }
@@ -160,6 +188,13 @@ pub fn run(ctx: &mut Ctx) {
             for &l in &ls {
                 for mutable in [false, true] {
                     ctx.case(&format!("C10;chunks_from_slice{};N={K};L={l};E={}", if mutable { "_mut" } else { "" }, E::NAME), || chunks::<E, N>(mutable, l));
+                }
+            }
+            if E::NAME == "unit" && K > 0 {
+                for &l in &[u32::MAX as usize - 1, u32::MAX as usize, u32::MAX as usize + 1, (1usize << 32) + 7, (1usize << 33) + 1, (1usize << 40) + K + 1, isize::MAX as usize] {
+                    for mutable in [false, true] {
+                        ctx.case(&format!("C10;huge-zst{};N={K};L={l}", if mutable { "_mut" } else { "" }), || chunks_huge_zst::<N>(mutable, l));
+                    }
                 }
             }
             for count in 0..=5usize {
